@@ -223,9 +223,23 @@ fn continuity(idx: u64, rng: &mut Rng, mon: &mut Mon) {
     let rp = robot.rp;
     let kin = make_solver(rng, &rp);
     let mut q = joints_uniform(rng, PI);
+    // a tenth of the postures has the upper arm upright in the X-Z plane (model J1 = 0 or pi, model J2 = 0): a shift of
+    // the pose along X does not lift the singularity there in first order
+    if rng.bool(0.1) && rp.signs[0] != 0 && rp.signs[1] != 0 {
+        let t1 = if rng.bool(0.5) { 0.0 } else { PI };
+        q[0] = (t1 + rp.offsets[0]) * rp.signs[0] as f64;
+        q[1] = (0.0 + rp.offsets[1]) * rp.signs[1] as f64;
+        mon.count("continuity.upright_in_the_xz_plane");
+    }
     place_t5(&rp, &mut q, 0, 0.0);
     let sens = wc_sensitivity(&rp, &q);
     mon.count("continuity.generated");
+    // (the solver works with ABSOLUTE tolerances - 1e-6 m, a 0.125 um singularity shift: the continuity clauses are
+    // calibrated for arms of 0.3 .. 12 m reach; gantry-sized or millimetre-sized copies are outside that calibration)
+    if !(rp.reach() >= 0.3 && rp.reach() <= 12.0) {
+        mon.inconclusive("continuity:robot-scale-outside-the-calibrated-range");
+        return;
+    }
     let bound: f64 = std::env::var("C05_SENS_BOUND").ok().and_then(|s| s.parse().ok()).unwrap_or(3.0);
     mon.count(&format!("continuity.sens_bucket.{}", (sens.min(99.0)) as u64));
     if !(sens <= bound) {
